@@ -70,6 +70,18 @@ func histWorker(args []string) int {
 					_ = os.Chtimes(sf.File, t, t)
 				}
 			}
+		case "record-noclose":
+			// a run whose process was killed before Close: several lines, not compacted
+			db := jsondb.New(sc.DataDir, false)
+			start := time.UnixMilli(o.Start).UTC()
+			if err := db.Open(o.Dag, start, o.Req); err != nil {
+				return err
+			}
+			for _, id := range o.IDs {
+				if err := db.Write(mkStatus(o.Dag, o.Req, start, id, o.Size)); err != nil {
+					return err
+				}
+			}
 		case "open":
 			inflight = jsondb.New(sc.DataDir, false)
 			inflightOp = o
@@ -147,10 +159,7 @@ func c07Scenarios(root string, big bool) []c07Scenario {
 	}
 	var out []c07Scenario
 	for pi, p := range priors {
-		sizes := []int{200}
-		if big {
-			sizes = []int{200, 9000}
-		}
+		sizes := []int{200, 9000}
 		for _, sz := range sizes {
 			for nw := 1; nw <= 3; nw++ {
 				if !big && nw == 3 {
@@ -178,6 +187,10 @@ func c07Scenarios(root string, big bool) []c07Scenario {
 				[]wOp{{Op: "rename", Dag: dagA, To: filepath.Join(root, "dags", "gamma.yaml")}}})
 			out = append(out, c07Scenario{fmt.Sprintf("removeold(p%d)", pi), p,
 				[]wOp{{Op: "removeold", Dag: dagA, Days: 7}}})
+			// manual update of a run whose process had been killed before Close (several lines)
+			unclosed := wOp{Op: "record-noclose", Dag: dagA, Req: req(), Start: base + 3000 + int64(pi), Size: 200, IDs: []int{nid(), nid(), nid()}}
+			out = append(out, c07Scenario{fmt.Sprintf("update-of-unclosed-run(p%d)", pi), append(append([]wOp{}, p...), unclosed),
+				[]wOp{{Op: "update", Dag: dagA, Req: unclosed.Req, Start: unclosed.Start, ID: nid(), Size: 150}}})
 			// a second run right after another one's compaction
 			r := req()
 			out = append(out, c07Scenario{fmt.Sprintf("update+new-run(p%d)", pi), p, []wOp{
@@ -214,7 +227,7 @@ func c07Expected(sc c07Scenario, nAcked int, killed bool) []*c07Run {
 	var cur *c07Run
 	apply := func(o wOp, acked bool) {
 		switch o.Op {
-		case "record":
+		case "record", "record-noclose":
 			runs = append(runs, &c07Run{dag: o.Dag, req: o.Req, start: o.Start, okIDs: map[int]bool{o.IDs[len(o.IDs)-1]: true}, age: o.Age, hasAcked: true})
 		case "open":
 			cur = &c07Run{dag: o.Dag, req: o.Req, start: o.Start, okIDs: map[int]bool{}, mayMiss: true}
